@@ -1054,6 +1054,7 @@ func (index *fkDeleteCascadeConstraint) ProcessBeforeDelete(ctx *IndexingContext
 		if index.cascadeType == CascadeDelete {
 			cursor := targetStore.IterateValidIds(ctx.Tx(), filter)
 			for cursor.IsValid() {
+				current := string(cursor.Current())
 				if ctx.ErrHolder.SetError(targetStore.DeleteById(ctx.Ctx, string(cursor.Current()))) {
 					return
 				}
@@ -1061,6 +1062,10 @@ func (index *fkDeleteCascadeConstraint) ProcessBeforeDelete(ctx *IndexingContext
 				// There is a bug in bolt where cursor next will sometimes skip the next row if you delete the
 				// current row, either via cursor delete or just bucket delete. Using seek works around this
 				cursor.Seek(cursor.Current())
+				if cursor.IsValid() && string(cursor.Current()) == current {
+					// still there: its own delete is already running further up the stack (reference cycle)
+					cursor.Next()
+				}
 			}
 		}
 	}
